@@ -1,3 +1,3 @@
 import C2paModel.Model.C11
 import C2paModel.Gen.C11Table
-def main : IO Unit := C2pa.runDriver (C2pa.C11.handleWith C2pa.C11.Gen.table)
+def main : IO Unit := C2pa.runDriver (C2pa.C11.handleWith C2pa.C11.Gen.table C2pa.C11.Gen.readers)
